@@ -21,6 +21,32 @@ fn main() {
         vcheck::corpus::generate(std::path::Path::new(&dir));
         return;
     }
+    // `vcheck e2e <uplink|relay|keepalive|reload|control|subscription> [n]`: run end-to-end scenarios directly (development aid)
+    if args[0] == "e2e" {
+        use vcheck::props::e2e::Phase;
+        let (phase, id) = match args.get(1).map(String::as_str) {
+            Some("uplink") => (Phase::Uplink, "C01"),
+            Some("relay") => (Phase::Relay, "C09"),
+            Some("keepalive") => (Phase::Keepalive, "C14"),
+            Some("reload") => (Phase::Reload, "C19"),
+            Some("control") => (Phase::Control, "C18"),
+            _ => (Phase::Subscription, "C20"),
+        };
+        let n = args.get(2).and_then(|s| s.parse().ok()).unwrap_or(1);
+        let ctx = Ctx {
+            id: id.to_string(),
+            tier: Tier::Thorough,
+            seed: std::env::var("VERIF_SEED").ok().and_then(|s| s.parse().ok()).unwrap_or(1),
+            known: rt::load_known(),
+            replay: None,
+            workers: 4,
+            start: Instant::now(),
+            state: Mutex::new(Default::default()),
+        };
+        vcheck::props::e2e::run(&ctx, phase, n);
+        println!("{}", serde_json::to_string_pretty(&ctx.state.lock().unwrap().extra).unwrap());
+        std::process::exit(if ctx.failed() { 1 } else { 0 });
+    }
     let id = args[0].to_uppercase();
     let mut tier = match std::env::var("VERIF_TIER").ok().as_deref() {
         Some("thorough") => Tier::Thorough,
